@@ -158,7 +158,7 @@ KERNEL_LINKS = {
     "C06": "ReplayBuffer.add and .current_size (buffer/replay.py) = Replay.soa_add / current_size for every buffer of positive capacity; ReplayBuffer.sample on a single buffer: population = capacity, replace = False, probability exactly zero on the unwritten slots and positive on the written ones",
     "C07": "DQN.dqn_loss (algorithm/dqn.py) and compute_target inside SAC.sac_train (algorithm/sac.py) = Losses.dqn_loss / td_target with sac_vnext, incl. which network sees which inputs",
     "C08": "PPO.ppo_loss (algorithm/ppo.py) = clipped surrogate (Losses.surrogate) / value / entropy / approx-KL terms and their weighted sum",
-    "C09": "AbstractBuffer.batch_indices (buffer/base_buffer.py) = Batching.batch_indices for every index vector the shuffle may return and every batch size > 0",
+    "C09": "AbstractBuffer.batch_indices (buffer/base_buffer.py) = Batching.batch_indices for every index vector the shuffle may return and every batch size > 0; PPO.train with train_epoch inlined = Batching.train (epoch e shuffles with its own key split(key, num_epochs)[e]; every row of batch_indices is used once, in order, gathered from the flattened buffer)",
     "C10": "num_iterations (on_policy.py, off_policy.py), DQN.per_iteration (dqn.py), _soft_update_targets (sac.py) = Schedule.num_iterations / the copy rule of dqn_iter / polyak; SAC.sac_train executed symbolically = Schedule.gated for actor and temperature, critics every iteration; AbstractAlgorithm.learn = reset, start observer, exactly floor(total/(N*T)) iterations over split(learn_key), end observer; DQN.iteration with per_iteration inlined = one step of Schedule.dqn_iter; SAC.iteration with per_iteration / _soft_update_targets inlined: sac_train is handed the pre-increment count and the new buffer, each target critic moves exactly once towards the new online critic",
     "C11": "AbstractOnPolicyAlgorithm.iteration (with AbstractAlgorithmState.next / with_callback_states inlined) = Observers.iteration; the training part does not depend on the observer or its state",
     "C12": "AbstractOnPolicyAlgorithm.iteration for N > 1 environments: environment i = a single-environment collection from its own state and key split(rollout_key, N)[i]; AbstractOffPolicyAlgorithm.reset for N > 1 = OffPolicy.off_reset (per-environment buffers of capacity buffer_size // N, keys, warm-up)",
